@@ -100,7 +100,7 @@ def gen(rng, n_cases, classes=("rnc", "constr")):
         n_survive = None if k == 0 else (n + int(rng.randint(1, 4)) if k == 1 else int(rng.randint(1, n + 1)))
         # history of the operator object before the recorded call: none / used on a population of another
         # problem (other constraint layout, other size) / used on the same population with a smaller quota
-        warm = ["none", "none", "other-problem", "same-pop", "rival-metric", "lent"][rng.randint(6)]
+        warm = ["none", "none", "other-problem", "same-pop", "rival-metric", "lent", "other-nobj"][rng.randint(7)]
         # documented keyword of pymoo's Survival.do: positions instead of the sub-population
         ret_idx = bool(rng.randint(6) == 0)
         # individuals carrying a feasibility tolerance (pymoo's AdaptiveEpsilonConstraintHandling sets one)
@@ -255,6 +255,15 @@ def run(case, replay=None):
                             s3 = rnc.ConstrRankAndCrowding(crowding_func=case["metric"], ranking=s.ranking)
                     prob2, pop2 = make_pop(F, G, H)
                     s3.do(prob2, pop2, n_survive=max(1, n // 2))
+                elif warm == "other-nobj":
+                    # the same survival object served a problem with another number of objectives before (two objectives
+                    # first, then many - or the other way round)
+                    r2 = np.random.RandomState(case["seed"] % 9967)
+                    m2 = 2 if F.shape[1] != 2 else (2 if case["metric"] == "pcd" else 3)
+                    F2 = r2.random_sample((n + 4, m2))
+                    F2 = F2 / F2.sum(axis=1, keepdims=True)
+                    prob2, pop2 = make_pop(F2, np.zeros((n + 4, G.shape[1])), np.zeros((n + 4, H.shape[1])))
+                    s.do(prob2, pop2, n_survive=max(1, (n + 4) // 2))
                 elif warm == "other-problem":
                     r2 = np.random.RandomState(case["seed"] % 9973)
                     n2 = n + 3
